@@ -107,5 +107,5 @@ def _m_mfdc_noncons(case, v, args):
     """MinFlowDecompCycles documents 'ValueError if the graph does not satisfy flow conservation' but performs no such check:
     a non-conserving flow (edge mode, nothing ignored) is searched for every k and ends unsolved without an error."""
     return (v.get("kind") == "invalid_input_not_rejected" and case.get("cls") == "MinFlowDecompCycles"
-            and case.get("origin") == "edge" and "nonconserving" in (case.get("muts") or [])
-            and all(m in ("nonconserving", "k_frac") for m in case.get("muts")))
+            and case.get("origin") == "edge" and any(m in ("nonconserving", "nonconserving_quarter") for m in (case.get("muts") or []))
+            and all(m in ("nonconserving", "nonconserving_quarter", "k_frac") for m in case.get("muts")))
